@@ -7,7 +7,7 @@ import pyref.bign as RB
 import pyref.belt as BELT
 from errs import E, name as ename
 
-RULE = ("cases: 3 standard curves x private keys {1, 2, q-1, random} x hashes {0, 1, q-1, q, q+1, 2^2l-1, random} x OIDs (valid of several lengths) x generator tapes "
+RULE = ("cases: 3 standard curves x private keys {1, 2, q-1, random, tied to the one-time key so that S1 = 0 (signatures and identity signatures)} x hashes {0, 1, q-1, q, q+1, 2^2l-1, random} x OIDs (valid of several lengths) x generator tapes "
         "(first samples 0, >= q, in [q,p), q-1, up to 64 rejections then good, 65 rejections => ERR_BAD_RNG) x key-transport key lengths 16..80 x header null/non-null; "
         "alterations of every verifier input: single-bit flips of signature/hash/public key/oid/token/header, s1+q, s1 := q, s1 := 0, y -> p-y, x or y >= p, H -> H +- q; "
         "the reference verifier decides; the library must accept iff the model accepts (off-curve public keys: the library must not crash; verdict not judged, see DESIGN 4.2). "
